@@ -546,7 +546,7 @@ def dumpLines (w : W) (tmo : Option (Option Nat)) : List String :=
       [s!"A {c.id} {comIdx k.com}" ++ String.join (cells.map (" " ++ ·))]
     | none => [])
   let dv := (w.devs.zipIdx).flatMap fun ((_, d), ix) =>
-    [s!"O dev {ix} conn {d.conn} {if d.loggedIn then 1 else 0} fd {match d.fd with | some f => toString f | none => "-1"} cur {if d.curAddr then 1 else 0} retry {d.retryCount} telnet {d.tstate}",
+    [s!"O dev {ix} conn {d.conn} {if d.loggedIn then 1 else 0} fd {match d.fd with | some f => toString f | none => "-1"} cur {match d.cur with | some i => toString i | none => "-1"} retry {d.retryCount} telnet {d.tstate}",
      s!"O dev {ix} to {hexOf d.toBuf}",
      s!"O dev {ix} from {hexOf d.fromBuf}",
      s!"O dev {ix} queue" ++ String.join (d.acts.map fun a => s!" {a.com}:{a.clientId}")]
@@ -560,10 +560,19 @@ def parseEnv (t : String) : FdEnv :=
   | [fd, rev, rk, hex, cap] => { fd := fd.toNat!, rev := rev.toNat!, rk := rk.toNat!, data := parseHex hex, cap := cap.toInt! }
   | _ => { fd := 0, rev := 0, rk := 0, data := [], cap := 0 }
 
-def mkDevEnv (w : W) (d : Dev) (now con soe : Nat) (envs : List FdEnv) : Env :=
+/-- the kernel's answers to the `connect()` (or `getsockopt(SO_ERROR)`) calls one device makes in one pass: the digits of the
+    op's string in call order, **the last one repeating** (`harness/udmn.c`: `k_ans`); `n` further copies of it are enough for a
+    device that makes at most `n` more calls than the string is long -/
+def answers (s : List Nat) (n : Nat) : List Nat := s ++ List.replicate n (s.getLastD 0)
+
+/-- calls of `socket()` / `connect()` / `getsockopt()` one tcp device can make in one pass: `tcp_finish_connect` walks over at
+    most the addresses behind the first, a `tcp_connect` of the same pass over all of them -/
+def maxCalls (d : Dev) : Nat := 2 * d.naddr + 2
+
+def mkDevEnv (w : W) (d : Dev) (now : Nat) (con soe : List Nat) (envs : List FdEnv) : Env :=
   let e : Option FdEnv := match d.fd with | some fd => envs.find? (fun (x : FdEnv) => x.fd == fd) | none => none
   { now, revents := match e with | some e => e.rev | none => 0,
-    sockets := (List.range 4).map (2000 + w.nsock + ·), connects := List.replicate 4 con, soerrs := List.replicate 4 soe,
+    sockets := (List.range (maxCalls d)).map (2000 + w.nsock + ·), connects := answers con (maxCalls d), soerrs := answers soe (maxCalls d),
     read := some (match e with | some e => (if e.rk == 1 then none else if e.rk == 2 then some [] else some e.data) | none => some []),
     writeOk := match e with | some e => e.cap ≥ 0 | none => true,
     wcap := match e with | some e => e.cap.toNat | none => 1 <<< 30,
@@ -581,16 +590,18 @@ def updLastDev (w : W) (f : Dev → Dev) : W :=
   | [] => w
 
 
-/-- the kernel's answers for one pass: time, `accept` verdict, `connect()` answer, `SO_ERROR`, per-descriptor events -/
+/-- the kernel's answers for one pass: time, `accept` verdict, the answers to the `connect()` calls and to the `SO_ERROR` queries
+    of each device (a digit per call, every device reads the string from its start, the last digit repeats: `answers`),
+    per-descriptor events -/
 structure PassIn where
   now : Nat
   acc : Nat
-  con : Nat
-  soe : Nat
+  con : List Nat
+  soe : List Nat
   envs : List FdEnv
 
 /-- `dev_initial_connect` -/
-def initialConnect (w : W) (now con soe : Nat) : W × List String :=
+def initialConnect (w : W) (now : Nat) (con soe : List Nat) : W × List String :=
   let (w, lines, devs) := w.devs.foldl (fun (acc : W × List String × List (Bytes × Dev)) (nd : Bytes × Dev) =>
       let (w, lines, devs) := acc
       let env := mkDevEnv w nd.2 now con soe []
